@@ -51,24 +51,6 @@ theorem parse_render_final_newline (fas : List (Frame × Option Str)) (etype msg
     fromString (toStringA fas etype msg ++ ['\n']) = .ok ⟨fas.map (·.1), etype, msg⟩ := by
   unfold fromString; rw [fromStringF_rendered_nl fas etype msg h]; rfl
 
-theorem toString_eq_toStringA (pe : PE) : toString pe = toStringA (noAnchors pe) pe.etype pe.msg := by
-  unfold toString toStringA toLines toLinesA noAnchors
-  congr 3
-  induction pe.frames with
-  | nil => rfl
-  | cons f fs ih =>
-    have : frameLines f = frameLinesA (f, none) := by
-      unfold frameLines frameLinesA
-      split <;> simp_all
-    simp only [List.map_cons, List.flatMap_cons, ih, this]
-
-theorem WFtextA_noAnchors (pe : PE) (h : WFpe pe = true) : WFtextA (noAnchors pe) pe.etype pe.msg = true := by
-  simp only [WFpe, Bool.and_eq_true, List.all_eq_true] at h
-  simp only [WFtextA, noAnchors, Bool.and_eq_true, List.all_eq_true, List.mem_map]
-  refine ⟨?_, h.2⟩
-  rintro fa ⟨f, hf, rfl⟩
-  simp [h.1 f hf, WFanchor]
-
 /-- parse ∘ render = id on well-formed parsed exceptions -/
 theorem parse_render (pe : PE) (h : WFpe pe = true) : fromString (toString pe) = .ok pe := by
   rw [toString_eq_toStringA, parse_render_markers _ _ _ (WFtextA_noAnchors pe h)]
@@ -89,6 +71,28 @@ theorem render_parse_markers (fas : List (Frame × Option Str)) (etype msg : Str
   simp only [Except.map, toString_eq_toStringA, noAnchors, List.map_map]
   rfl
 
+/-- the same for a text given as such: `WFtext` is a decidable predicate on texts (layout reading gives
+    well-formed data whose standard rendering is the text); for every such text from_string succeeds,
+    recovers that data, and to_string gives the text back, character for character -/
+theorem render_parse_text (t : Str) (h : WFtext t = true) :
+    ∃ pe, readText t = some pe ∧ WFpe pe = true ∧ fromString t = .ok pe ∧ (fromString t).map toString = .ok t := by
+  unfold WFtext at h
+  cases hr : readText t with
+  | none => rw [hr] at h; simp at h
+  | some pe =>
+    rw [hr] at h
+    simp only [Bool.and_eq_true, beq_iff_eq] at h
+    refine ⟨pe, rfl, h.1, ?_, ?_⟩
+    · rw [← h.2]; exact parse_render pe h.1
+    · rw [← h.2, parse_render pe h.1]; rfl
+
+/-- a traceback text without exception line (traceback.format_stack, TracebackInfo.get_formatted):
+    every frame is recovered, type and message are empty (before the fix: IndexError) -/
+theorem parse_stack_text (frames : List Frame) (hall : frames.all WFframe = true) (hne : frames ≠ []) :
+    fromString (joinNL (header :: frames.flatMap frameLines)) = .ok ⟨frames, [], []⟩ := by
+  unfold fromString
+  rw [fromStringF_stack frames (by simpa [List.all_eq_true] using hall) hne]; rfl
+
 /-! non-vacuity: a two-frame text with a non-ASCII path, a marker line, a last frame without source
     line and a multi-line message containing `": "` and a frame-like line satisfies the hypotheses -/
 
@@ -100,16 +104,12 @@ def exMsg : Str := "a: b\n  File \"q\", line 3, in z\n\nlast".toList
 example : WFtextA exFrames "pkg.mod.Err".toList exMsg = true := by decide +kernel
 example : WFpe ⟨exFrames.map (·.1), "ValueError".toList, []⟩ = true := by decide +kernel
 example : WFpe ⟨[], "f.<locals>.E".toList, "x".toList⟩ = true := by decide +kernel
+example : WFtext ("Traceback (most recent call last):\n  File \"/x y/é.py\", line 12, in <module>\n" ++
+    "    foo(1, \"a: b\")\n  File \"<stdin>\", line 3, in <lambda>\npkg.Err: a: b\n  File \"q\", line 3, in z\n\nlast").toList
+    = true := by decide +kernel
+example : (exFrames.map (·.1)).all WFframe = true ∧ exFrames.map (·.1) ≠ [] := by decide +kernel
 
 /-! the three regions the hypotheses exclude are real defects of the code as it is (known findings) -/
-
-theorem fromStringF_noframes {t e1 : Str} {E : List Str}
-    (h1 : dropTrailers (splitlines (lstrip t)) = header :: e1 :: E) (h2 : matchFrame (strip e1) = none) :
-    fromString t = .ok ⟨[], (excParts (e1 :: E)).1, (excParts (e1 :: E)).2⟩ := by
-  unfold fromString fromStringF fromLinesF
-  have hh : strip header = header := strip_of_first_last (by rfl) (by rfl)
-  simp only [h1, hh, ↓reduceIte, parseLoop_cons_none h2]
-  rfl
 
 /-- a message ending in a newline is not recovered -/
 theorem parse_render_false_trailing_newline :
@@ -150,11 +150,6 @@ theorem tbinfo_format_eq (tb : List Callpoint) (limit : Option Nat) :
   rw [frames_eq_extract_tb]
   congr 1
   induction stdExtract tb limit with
-  | nil => rfl
-  | cons c cs ih => simp [List.flatMap_cons, tbFrameStr_eq_std, ih]
-
-theorem flatMap_tbFrameStr (frames : List Callpoint) : frames.flatMap tbFrameStr = frames.flatMap stdFrameStr := by
-  induction frames with
   | nil => rfl
   | cons c cs ih => simp [List.flatMap_cons, tbFrameStr_eq_std, ih]
 
